@@ -18,7 +18,7 @@ PROP = {
     "trusted_base": TRUSTED_COMMON + lc.TRUSTED_LEDGER,
     "assumptions": ["element types: an instrumented class type with non-trivial special members; int (trivially default-constructible and destructible); a class type with logged, non-trivial "
                     "default/copy construction and a TRIVIAL destructor (the only mixed combination that exists); the instrumented type with force_element_trivial_destruction (destruction declared skippable)",
-                    "zero-based extents (index bases are C19's subject); D = 1..3, and array<T,0> (about 7% of the programs; non-propagating allocators in the three select_on_container_copy_construction modes, std::pmr; int and Semi elements in the trivial modes) with the forms whose code mirrors the D >= 1 code of the model: construction from extensions / from an element, copy construction, copy assignment, assignment of an element, destruction; move construction and move assignment of a 0-D array (element-wise, source stays alive) are not exercised; the CUDA/thrust code paths are not exercised",
+                    "zero-based extents (index bases are C19's subject); D = 1..3, and array<T,0> (about 7% of the programs; non-propagating allocators in the three select_on_container_copy_construction modes, std::pmr; int and Semi elements in the trivial modes) with the forms whose code mirrors the D >= 1 code of the model: construction from extensions / from an element, copy construction, copy assignment, assignment of an element, destruction; move construction and move assignment of a 0-D array (element-wise, source stays alive) are not exercised; the theorems assume 1 <= D (Cfg.OK), so for D = 0 the model is the executable reference of the correspondence only (validated, not proved); the CUDA/thrust code paths are not exercised",
                     "operations whose preconditions the caller violates are not part of a history (reshape to another element count, slice outside the extension, swap of unequal non-propagating allocators)",
                     "serialisation-load is `clear(); reextent(extensions)` followed by element assignment (array.hpp:1174-1181): covered as the composition of those operations, the archive itself is C17's subject"],
     "rule": lc.RULE,
